@@ -5,6 +5,8 @@ from . import proggen as G
 ID = "C14"
 # override-kinds cases: the model IS the property there - literal_reaches_operand_override(_def) hold for a scope of any declared kinds
 SPEC_IS_ORACLE = lambda c: "override-kinds" in c.tags
+# theorems of Props/Tables.lean over the tables TRANSLATED from /repo/src and libccp's headers on every run (DESIGN 11.7)
+TABLE_THEOREMS = ['src_regEnc_eq']
 THEOREMS = [
     "Portus.C14.digitsVal_repr", "Portus.C14.numeral_parses_exactly", "Portus.C14.numeral_value_lt",
     "Portus.C14.numeral_of_value", "Portus.C14.infinity_parses", "Portus.C14.imm_encoding",
